@@ -12,39 +12,219 @@ let show_str (l : z list) =
 let show_strs l = "[" ^ String.concat "," (List.map show_str l) ^ "]"
 
 (* ---------- GeneratePeopleDict / Consume ---------- *)
+(* tail-recursive helpers: the scale cases have 10^5 .. 10^6 commits *)
+let tmap f l = List.rev (List.rev_map f l)
+let iints (s : sx) : int list = tmap int_of_sx (list_of_sx s)
+let zstr_t (s : sx) : z list = tmap (fun x -> z_of_int (int_of_sx x)) (list_of_sx s)
+
+(* unary naturals with shared tails: nat_tbl.(i+1) = S nat_tbl.(i) *)
+let nat_tbl = ref [| O |]
+let snat (i : int) : nat =
+  if i < 0 then O else begin
+    if i >= Array.length !nat_tbl then begin
+      let old = !nat_tbl in
+      let n = max (i + 1) (2 * Array.length old) in
+      let a = Array.make n O in
+      Array.blit old 0 a 0 (Array.length old);
+      for k = Array.length old to n - 1 do a.(k) <- S a.(k - 1) done;
+      nat_tbl := a
+    end;
+    !nat_tbl.(i)
+  end
+
+(* strings.ToLower as observed by the harness: ASCII lower-casing except on the listed strings *)
+let lower_of (obs : sx) : z list -> z list =
+  match field_opt "lower" obs with
+  | None -> lower_ascii
+  | Some f ->
+      let tbl = Hashtbl.create 16 in
+      List.iter (fun x -> match list_of_sx x with
+        | [r; l] -> Hashtbl.replace tbl (iints r) (zstr l)
+        | _ -> failwith "lower") (args f);
+      count "gen_nonascii_lowering";
+      (fun s -> match Hashtbl.find_opt tbl (ints s) with Some l -> l | None -> lower_ascii s)
+
+(* the deterministic commit list of the scale-few cases: (gen few n p q) *)
+let gen_commits (g : sx) : (z list * z list) list =
+  match args g with
+  | [A "few"; n; p; q] ->
+      let n = int_of_sx n and p = int_of_sx p and q = int_of_sx q in
+      let cf k s = List.mapi (fun j ch -> let c = Char.code ch in
+                      z_of_int (if (k + j) mod 3 = 0 && c >= 97 && c <= 122 then c - 32 else c))
+                     (List.init (String.length s) (String.get s)) in
+      let rec go i acc = if i < 0 then acc else
+          go (i - 1) ((cf i (string_of_int (i mod p) ^ "name"),
+                       cf (i + 1) (string_of_int ((i * 7 + i / p) mod q) ^ "m@x.org")) :: acc) in
+      go (n - 1) []
+  | _ -> failwith "gen"
+
+let show_mm mm = "[" ^ String.concat "; " (List.map (fun (k, (n, e)) -> show_str k ^ " -> " ^ show_str n ^ " <" ^ show_str e ^ ">") mm) ^ "]"
+let show_ints l = "[" ^ String.concat ";" (List.map string_of_int l) ^ "]"
+
+let rec perms = function
+  | [] -> [[]]
+  | l -> List.concat (List.mapi (fun i x -> List.map (fun p -> x :: p) (perms (List.filteri (fun j _ -> j <> i) l))) l)
+let rotations l =
+  let n = List.length l in
+  List.init n (fun k -> List.filteri (fun i _ -> i >= k) l @ List.filteri (fun i _ -> i < k) l)
+
+let big_limit = 3000       (* above: no quadratic extracted oracle, per-commit loops instead *)
+
 let gen_case id c =
   let exact = bool_of_sx (List.hd (args (field "exact" c))) in
-  let cs = List.map (fun x -> match list_of_sx x with [n; e] -> (zstr n, zstr e) | _ -> failwith "commit") (args (field "commits" c)) in
+  let cs = match field_opt "gen" c with
+    | Some g -> gen_commits g
+    | None -> tmap (fun x -> match list_of_sx x with [n; e] -> (zstr n, zstr e) | _ -> failwith "commit") (args (field "commits" c)) in
+  let ncs = List.length cs in
+  let big = ncs > big_limit in
+  let nomodel = field_opt "nomodel" c <> None in
   let obs = field "obs" c in
-  let m = gen_ascii exact cs in
+  let lower = lower_of obs in
+  let mailmap = match field_opt "mailmap" c with Some m -> Some (zstr_t (List.hd (args m))) | None -> None in
   count (if exact then "gen_exact" else "gen_loose");
-  match field_opt "panic" obs, m with
-  | Some _, None -> count "gen_panic_empty_list"
-  | Some _, Some _ -> propfail id "GeneratePeopleDict/Consume panics on a non-empty commit list"
-  | None, None -> mismatch id "model panics (empty commit list), implementation does not"
-  | None, Some (mdict, mrev) ->
-      let gdict = List.map (fun x -> match list_of_sx x with [k; v] -> (zstr k, nat_of_int (int_of_sx v)) | _ -> failwith "dict")
-                    (args (field "dict" obs)) in
-      let grev = List.map zstr (args (field "rev" obs)) in
-      let gauth = zs_of_sx (List.hd (args (field "authors" obs))) in
-      (* coarse: the property, judged on the implementation's outputs *)
+  if field_opt "decoy" c <> None then count "gen_mailmap_in_other_commits_only";
+  (* ---- the parsed mailmap: implementation (hook) against the model of ParseMailmap ---- *)
+  let gmm = match field_opt "mm" obs with
+    | Some f -> Some (tmap (fun x -> match list_of_sx x with [k; n; e] -> (zstr k, (zstr n, zstr e)) | _ -> failwith "mm") (args f))
+    | None -> None in
+  let gmm_panic = field_opt "mmpanic" obs <> None in
+  let mparse = match mailmap with Some t -> Some (parse_mailmap t) | None -> None in
+  let norm_mm l = List.sort compare (List.map (fun (k, (n, e)) -> (ints k, ints n, ints e)) l) in
+  (match mparse, gmm, gmm_panic with
+   | None, None, false -> ()
+   | Some None, None, true -> count "mailmap_parse_panics"
+   | Some (Some m), Some g, false ->
+       count "mailmap_parsed";
+       if g <> [] then count "mailmap_nonempty";
+       if norm_mm m <> norm_mm g then mismatch id ("ParseMailmap differs: impl=" ^ show_mm g ^ " model=" ^ show_mm m)
+   | Some None, Some g, _ -> mismatch id ("ParseMailmap: the model panics, the implementation returns " ^ show_mm g)
+   | Some (Some m), _, true -> mismatch id ("ParseMailmap: the implementation panics, the model returns " ^ show_mm m)
+   | _ -> failwith "mailmap observation");
+  (* the table GeneratePeopleDict works with: none in exact mode (the file is not read) *)
+  let mm = if exact then [] else match gmm with Some g -> g | None -> [] in
+  let expect_parse_panic = (not exact) && gmm_panic in
+  let in_dom = mm_domb lower mm in
+  if mm <> [] then count (if in_dom then "mailmap_in_domain" else "mailmap_overlap_domain");
+  let where = match mailmap with
+    | Some t -> " .mailmap=" ^ show_str t ^ (if mm <> [] then " parsed=" ^ show_mm mm else "") | None -> "" in
+  let model_with order = if exact then generate_people_dict lower true id_order cs
+                         else generate_people_dict_mm lower id_order (fun l -> l) order cs in
+  let runs = match List.filter (fun x -> tag x = "run") (args obs) with [] -> [obs] | l -> l in
+  let case_failed = ref false in
+  if field_opt "panic" obs <> None then begin
+    if ncs = 0 then begin
+      match model_with [] with None -> count "gen_panic_empty_list" | Some _ -> mismatch id "implementation panics on the empty list, the model does not"
+    end else if expect_parse_panic then
+      propfail id ("GeneratePeopleDict panics on a non-empty commit list: ParseMailmap slices line[:-1] on a line that ends in \">\" and has no \"<\" before it [mailmap-parse-panic]" ^ where)
+    else propfail id ("GeneratePeopleDict/Consume panics on a non-empty commit list" ^ where)
+  end else if ncs = 0 then mismatch id "model panics (empty commit list), implementation does not"
+  else if expect_parse_panic then mismatch id ("ParseMailmap panics but GeneratePeopleDict does not" ^ where)
+  else List.iter (fun run ->
+      let gdict_i = tmap (fun x -> match list_of_sx x with [k; v] -> (zstr k, int_of_sx v) | _ -> failwith "dict") (args (field "dict" run)) in
+      let grev = tmap zstr (args (field "rev" run)) in
+      let gauth_i = iints (List.hd (args (field "authors" run))) in
+      let nrev = List.length grev in
       let ok = ref true in
-      if not (total_ok_ascii grev gauth) then begin ok := false;
-        propfail id ("total: an author of the list does not resolve to an index below the number of developers: authors=["
-                     ^ String.concat ";" (List.map string_of_int (ints gauth)) ^ "] developers=" ^ string_of_int (List.length grev)) end
-      else if not (same_email_ok_ascii exact cs gauth) then begin ok := false;
-        propfail id ("same-email: two commits with the same " ^ (if exact then "signature" else "e-mail") ^ " (case-insensitively) resolve to different developers: authors=["
-                     ^ String.concat ";" (List.map string_of_int (ints gauth)) ^ "]") end
-      else if not (description_ok_ascii exact cs gdict grev) then begin ok := false;
-        propfail id ("description: a developer's description does not list exactly the names and e-mails attached to it: " ^ show_strs grev) end;
-      (* fine: the dictionaries and the authors are the model's *)
-      if !ok then begin
-        let norm d = List.sort compare (List.map (fun (k, v) -> (ints k, int_of_nat v)) d) in
-        if norm gdict <> norm mdict then mismatch id "PeopleDict differs from the model"
-        else if List.map ints grev <> List.map ints mrev then mismatch id ("ReversedPeopleDict differs: impl=" ^ show_strs grev ^ " model=" ^ show_strs mrev)
-        else if not (consume_ok_ascii exact cs gdict gauth) then mismatch id "Consume differs from the model's lookup"
-        else if List.length grev >= 2 then count "gen_two_or_more_developers"
-      end
+      let fail what = if !ok then begin ok := false; if not !case_failed then begin case_failed := true; propfail id what end end in
+      let total_msg () = "total: an author of the list does not resolve to an index below the number of developers: authors=" ^
+                         (if ncs <= 40 then show_ints gauth_i else "...") ^ " developers=" ^ string_of_int nrev ^ where in
+      let same_msg () = "same-email: two commits with the same " ^ (if exact then "signature" else "e-mail") ^
+                        " (case-insensitively) resolve to different developers" ^ (if ncs <= 40 then ": authors=" ^ show_ints gauth_i else "") ^ where in
+      let desc_msg sfx = "description: a developer's description does not list exactly the names and e-mails attached to it: " ^
+                         (if nrev <= 40 then show_strs grev else "...") ^ where ^ sfx in
+      if List.length gauth_i <> ncs then fail ("total: " ^ string_of_int (List.length gauth_i) ^ " authors for " ^ string_of_int ncs ^ " commits");
+      if nomodel || big then begin
+        (* hash-based statement of the property, per commit *)
+        count "gen_scale_case";
+        if List.exists (fun a -> a < 0 || a >= nrev) gauth_i then fail (total_msg ());
+        let seen = Hashtbl.create 1024 in
+        List.iter2 (fun (n, e) a ->
+            let k = ints (lower (if exact then sig_string (n, e) else e)) in
+            match Hashtbl.find_opt seen k with
+            | Some a' -> if a' <> a then fail (same_msg ())
+            | None -> Hashtbl.add seen k a) cs gauth_i
+      end else begin
+        let gauth = tmap z_of_int gauth_i in
+        if not (total_okb grev gauth) then fail (total_msg ())
+        else if not (same_email_okb lower exact cs gauth) then fail (same_msg ())
+      end;
+      if nomodel then begin
+        (* every description = the set of keys of the developer (names and e-mails are disjoint and bar-free here) *)
+        let by_dev = Array.make (max nrev 1) [] in
+        List.iter (fun (k, v) -> if v >= 0 && v < nrev then by_dev.(v) <- ints k :: by_dev.(v) else fail (desc_msg " (a key points outside the list)")) gdict_i;
+        let bar = 124 in
+        let split l = let rec go cur acc = function
+            | [] -> List.rev (List.rev cur :: acc)
+            | x :: r -> if x = bar then go [] (List.rev cur :: acc) r else go (x :: cur) acc r in go [] [] l in
+        List.iteri (fun d r ->
+            let parts = if exact then [ints r] else split (ints r) in
+            if List.sort_uniq compare parts <> List.sort_uniq compare by_dev.(d) || List.length parts <> List.length by_dev.(d) then
+              fail (desc_msg (" (developer " ^ string_of_int d ^ ": " ^ show_str r ^ ")"))) grev;
+        let used = Hashtbl.create 1024 in
+        List.iter (fun (n, e) -> if exact then Hashtbl.replace used (ints (lower (sig_string (n, e)))) ()
+                                 else begin Hashtbl.replace used (ints (lower n)) (); Hashtbl.replace used (ints (lower e)) () end) cs;
+        if List.exists (fun (k, _) -> not (Hashtbl.mem used (ints k))) gdict_i || List.length gdict_i <> Hashtbl.length used then
+          fail (desc_msg " (the keys of PeopleDict are not the names and e-mails in use)");
+        if !ok then count "gen_scale_judged_without_model"
+      end else begin
+        let gdict = tmap (fun (k, v) -> (k, snat v)) gdict_i in
+        (* the description half of the property *)
+        if !ok then begin
+          if mm = [] then begin
+            if ncs * List.length gdict_i <= 20_000_000 then begin
+              if not (description_okb lower exact cs gdict grev) then fail (desc_msg "") end
+            else count "gen_description_by_model_only"
+          end else if List.for_all (fun (k, _) -> nobarb k) gdict then begin
+            if not (description_mm_okb lower cs mm gdict grev) then
+              fail (desc_msg (if in_dom then "" else " [mailmap-overlap: a lower-cased mailmap key is also the key or the canonical name/e-mail of an entry with a different canonical pair; the outcome depends on Go's map order]"))
+            else if not in_dom then count "mailmap_overlap_harmless_order"
+          end else count "mailmap_keys_with_bars_description_by_model_only"
+        end;
+        (* fine: the dictionaries and the authors are the model's, for some iteration order of the mailmap *)
+        if !ok then begin
+          let norm d = List.sort compare (List.map (fun (k, v) -> (ints k, v)) d) in
+          let gnorm = norm gdict_i and grev_i = List.map ints grev in
+          let matches order = match model_with order with
+            | Some (d, r) -> List.map ints r = grev_i && norm (List.map (fun (k, v) -> (k, int_of_nat v)) d) = gnorm
+            | None -> false in
+          let found =
+            if mm = [] then matches []
+            else begin
+              let idof k = match List.assoc_opt (ints (lower k)) gnorm with Some v -> v | None -> max_int in
+              let score (k, (n, e)) =
+                let i = idof k in
+                let reg x = if x = [] then 0 else if idof x = i then 1 else -1 in
+                - (reg n + reg e) in
+              let keyed = List.mapi (fun pos ((k, _) as en) -> ((idof k, score en, pos), en)) mm in
+              let heur = List.map snd (List.sort (fun (a, _) (b, _) -> compare a b) keyed) in
+              let n = List.length mm in
+              matches heur
+              || (match mparse with Some (Some m) when norm_mm m = norm_mm mm -> List.exists matches (rotations m) | _ -> false)
+              || (n <= 6 && List.exists matches (perms mm))
+              || (let st = Random.State.make [| id; n |] in
+                  let rec tries k = k > 0 && begin
+                      let sh = List.map snd (List.sort compare (List.map (fun ((i, _, _), en) -> ((i, Random.State.bits st), en)) keyed)) in
+                      matches sh || tries (k - 1) end in
+                  tries 200)
+            end in
+          if not found then begin
+            match model_with (if mm = [] then [] else mm) with
+            | Some (d, r) ->
+                let md = norm (List.map (fun (k, v) -> (k, int_of_nat v)) d) in
+                if mm = [] && md <> gnorm then mismatch id "PeopleDict differs from the model"
+                else if mm = [] then mismatch id ("ReversedPeopleDict differs: impl=" ^ show_strs grev ^ " model=" ^ show_strs r)
+                else mismatch id ("no iteration order of the mailmap makes the model return the implementation's dictionaries: impl=" ^ show_strs grev ^ where)
+            | None -> mismatch id "model panics"
+          end else begin
+            if mm <> [] then count "mailmap_order_found";
+            let consume_ok =
+              if big then List.for_all2 (fun cm a -> int_of_z (consume lower exact gdict cm) = a) cs gauth_i
+              else consume_okb lower exact cs gdict (tmap z_of_int gauth_i) in
+            if not consume_ok then mismatch id "Consume differs from the model's lookup"
+            else if nrev >= 2 then count "gen_two_or_more_developers"
+          end
+        end
+      end) runs
 
 (* ---------- merges ---------- *)
 type mres = MPanic | MOk of (z list * ((z * z) * z)) list * z list list
@@ -123,6 +303,6 @@ let merge_case id c =
 
 let () =
   iter_cases (fun id c ->
-    match field_opt "commits" c with
-    | Some _ -> gen_case id c
-    | None -> merge_case id c)
+    match field_opt "commits" c, field_opt "gen" c with
+    | None, None -> merge_case id c
+    | _ -> gen_case id c)
